@@ -62,7 +62,7 @@ func genFreeName() *rapid.Generator[string] {
 // genLongName: a valid single-line name around the buffer sizes that row readers use (4096, 65536 bytes).
 func genLongName() *rapid.Generator[string] {
 	return rapid.Custom(func(t *rapid.T) string {
-		n := rapid.SampledFrom([]int{4000, 4094, 4095, 4096, 4097, 5000, 9000, 20000, 60000}).Draw(t, "longLen")
+		n := rapid.SampledFrom([]int{4000, 4094, 4095, 4096, 4097, 5000, 9000, 20000, 32768, 33000, 40000, 60000}).Draw(t, "longLen")
 		ch := rapid.SampledFrom([]string{"x", "ab", "é", "-"}).Draw(t, "longCh")
 		return strings.Repeat(ch, n/len(ch))
 	})
